@@ -42,12 +42,12 @@ CHECKS = {
          "sibling agreement between implementations of one interface, index-provenance dataflow, reachability contradiction (leaf creation after the objective leaf)",
          "trusts the MOSEK Task API facts listed in the evidence; equality of optimal values is not decided", "DESIGN.md 5 C11"),
  "C12": ("other",
-         "Inventory of process-global mutable state (class-level cells written through the class, module-level objects) against the reset routine PEP.__init__ calls first; every verbosity guard encloses output only; no identity / hash / set-order / randomness / clock dependence in the package.",
-         "state inventory from effect summaries vs reset set, guard-body effect-freedom with reaching definitions, package-wide determinism lint",
+         "Inventory of process-global mutable state (class-level cells written through the class or advanced by next(), module-level objects, memo tables of functools decorators, default arguments evaluated once, function attributes used as storage) against the reset routine PEP.__init__ calls first; every verbosity guard encloses output only; no identity / hash / set-order / randomness / clock dependence in the package.",
+         "state inventory from effect summaries vs reset set, purity of memoised call closures (reads of inventory cells / attributes written after construction), escape analysis of mutable defaults, guard-body effect-freedom with reaching definitions, package-wide determinism lint",
          "bit-for-bit equality of solver input follows only structurally", "DESIGN.md 5 C12"),
  "C13": ("other",
-         "A new wrapper, fresh tracking lists and a fresh objective leaf per solve; class and partition constraints regenerated before the first send; every accumulation reachable from the per-solve roots is reset there, keyed, under an idempotence guard or an identifier counter; derived objects recompute their value at every eval; exits of the solve root.",
-         "dominance on structured control flow, interprocedural effect closure with constant-argument refinement, memo-path enumeration",
+         "A new wrapper, fresh tracking lists and a fresh objective leaf per solve; class and partition constraints regenerated before the first send; every accumulation reachable from the per-solve roots is reset there, keyed, under an idempotence guard or an identifier counter; derived objects recompute their value at every eval (no functools memo over attributes written after construction); exits of the solve root.",
+         "dominance on structured control flow, interprocedural effect closure with constant-argument refinement, memo-path enumeration, purity of memoised call closures",
          "equality of returned numbers across solves is not decided", "DESIGN.md 5 C13"),
  "C14": ("other",
          "Multipliers are captured exactly once, after exactly one solve and before every dimension-reduction call on every path; the residual comes from that capture; dual mode returns the reconstructed constant and primal mode the solver value; both back-ends add objective >= optimum - tolerance, untracked, then minimise a linear function of the Gram matrix; heuristic names dispatched by a closed chain.",
